@@ -142,7 +142,7 @@ impl Property for C07 {
                     let (kind, level) = if l < 10 { (2u8, l as i32) } else if l < 32 { (3, (l - 10) as i32 + 1) } else if l < 42 { (4, (l - 32) as i32) } else { (5, (l - 42) as i32 + 1) };
                     let mut c = BuilderConfig::minimal("levels");
                     c.compression = Comp { kind, level: Some(level) };
-                    let mk = |name: &str, size: u32, kind: u8| FileSpec { dot_style: false, components: vec!["opt".into(), name.into()], content: ContentSpec { size, kind, seed: 11 }, mode: ModeSpec::Regular(0o644), user: None, group: None, flags: 0, caps: None, symlink: None, mtime: 5, verify: None };
+                    let mk = |name: &str, size: u32, kind: u8| FileSpec { dot_style: false, components: vec!["opt".into(), name.into()], content: ContentSpec { size, kind, seed: 11 }, mode: ModeSpec::Regular(0o644), user: None, group: None, flags: 0, caps: None, symlink: None, mtime: 5, verify: None, mode_as_int: 0 };
                     c.files = match i / 51 {
                         0 => vec![],
                         1 => vec![mk("a", 5, 1), mk("b", 0, 0), mk("c", 4097, 2)],
